@@ -77,3 +77,10 @@ Qed.
    term made of plain words is accepted; what FTS5 makes of any other term is not modelled (class 5) *)
 Theorem search_partial : forall t acc, plain_term t = true -> spec_C04 (CSearch t acc) (run_C04 (CSearch t acc)) = true.
 Proof. intros t acc H. cbn [spec_C04 run_C04]. rewrite H. reflexivity. Qed.
+
+Theorem search_outside_known : forall t acc, known_C04 (CSearch t acc) = [] -> spec_C04 (CSearch t acc) (run_C04 (CSearch t acc)) = true.
+Proof. intros t acc H. apply search_partial. cbn [known_C04] in H. destruct (plain_term t). reflexivity. discriminate. Qed.
+
+(* the statement of a search query does not depend on the term at all: the model's verdict on the text is the constant 1 *)
+Theorem search_text_independent : forall t t' acc acc', hd 0%Z (run_C04 (CSearch t acc)) = hd 0%Z (run_C04 (CSearch t' acc')).
+Proof. reflexivity. Qed.
